@@ -18,9 +18,13 @@ PID = "C01"
 WHAT = {"D01_wscale_no_payload": "a TCP window-scale option with length byte 2 (no payload) or cut off by the end of the option area panics the TCP analyzer (index out of bounds in the option walk)"}
 
 
-def mutations(seed, rng, tier, full=False):
+def mutations(seed, rng, tier, full=False, window=None):
+    """byte-level mutations of one seed; `window` limits the mutated offsets to the first bytes (headers) of long seeds"""
     out = []
     n = len(seed)
+    if window and n > window:
+        head = mutations(seed[:window], rng, tier, full)
+        return [m + seed[window:] if len(m) == window else m for m in head] + [seed[:k] for k in range(window, n, 61)]
     if full:                                 # every value of every byte (length, count, flag and type fields included)
         for off in range(n):
             for val in range(256):
@@ -136,14 +140,15 @@ def run(tier, v):
     seeds["frame"].append(c10.frame((10, 3, 0, 1), (10, 3, 0, 2), 40124, 80, 1, 1, 0x18, h2[-1], ipid=78))
     pdir = os.path.join(vlib.REPO, "pcap")
     for name in sorted(os.listdir(pdir)) if os.path.isdir(pdir) else []:
-        fr = pcap_frames(os.path.join(pdir, name), 400 if tier == "thorough" else 12)
-        seeds["frame"] += fr if tier == "thorough" else fr[:3]
+        fr = pcap_frames(os.path.join(pdir, name), 60 if tier == "thorough" else 12)
+        seeds["frame"] += fr[::3] if tier == "thorough" else fr[:3]
     inputs = {k: [] for k in ("frame", "hello", "h1req", "h1resp", "h2")}
     for kind, ss in seeds.items():
         for k, s in enumerate(ss):
             # every byte value at every offset: always for the parser-level seeds, for the spec-rendered frames in thorough
             full = (kind != "frame" and len(s) <= 600) or (tier == "thorough" and kind == "frame" and k < 6)
-            inputs[kind] += mutations(s, rng, tier, full) + [s]
+            # captured frames are long: mutate their headers (Ethernet + IP + TCP + options and the first payload bytes) only
+            inputs[kind] += mutations(s, rng, tier, full, window=(160 if kind == "frame" and k >= 6 else None)) + [s]
     inputs["frame"] += optframes
     # the structured malformed spaces of Totality.tla: as parser input and as the payload of a segment of a tracked connection
     inputs["h2"] += h2shapes
@@ -187,13 +192,24 @@ def run(tier, v):
     add("hresp", inputs["h1resp"] + inputs["h2"])
     add("db", db_mutations(rng, tier))
     req = os.path.join(wd, "tot.req")
-    vlib.write_ndjson(req, lines)
     out = os.path.join(wd, "tot.out")
     exe = vlib.build_harness()
-    with open(req, "rb") as fi, open(out, "wb") as fo:
-        p = subprocess.run([exe, "tot"], stdin=fi, stdout=fo, stderr=subprocess.PIPE, timeout=3000)
-    if p.returncode not in (0, 3):
-        raise vlib.ToolError("harness tot exited %d: %s" % (p.returncode, p.stderr.decode(errors="replace")[-2000:]))
+    # the request lines are independent (each has its own instances): run them on several harness processes side by side
+    parts = 12 if tier == "thorough" else 4
+    procs = []
+    for k in range(parts):
+        pi = "%s.part%d" % (req, k)
+        vlib.write_ndjson(pi, lines[k::parts])
+        procs.append((pi, subprocess.Popen([exe, "tot"], stdin=open(pi, "rb"), stdout=open(pi + ".out", "wb"), stderr=subprocess.PIPE)))
+    with open(out, "wb") as fo:
+        for pi, p in procs:
+            _, err = p.communicate(timeout=6000)
+            if p.returncode not in (0, 3):
+                raise vlib.ToolError("harness tot exited %d: %s" % (p.returncode, err.decode(errors="replace")[-2000:]))
+            with open(pi + ".out", "rb") as f:
+                fo.write(f.read())
+            os.remove(pi)
+            os.remove(pi + ".out")
     n_inputs = n_ok = n_err = 0
     trace = os.path.join(wd, "trace.ndjson")
     with open(trace, "w") as f:
